@@ -218,6 +218,8 @@ type World struct {
 	FaultRate map[string]int // per kind: probability n/64 per opportunity
 	StepCheck func()         // invariant evaluated after every scheduling step
 	scData    any            // scenario private data handed from Build to Check
+	ArmSeq    map[*simrt.Task]uint64 // sequence number at which a timer task was armed / a goroutine spawned
+	SpawnHook func(t *simrt.Task)    // scenario hook, called when the stack spawns a goroutine or arms a timer
 	uniq      int
 
 	States map[string]struct{} // distinct abstract states (hashes) seen
@@ -313,6 +315,19 @@ func (w *World) Violate(sig, format string, a ...any) {
 //go:norace
 func (w *World) OnCleanup(f func()) { w.cleanup = append(w.cleanup, f) }
 
+// onSpawn is installed as the scheduler's spawn hook.
+//
+//go:norace
+func (w *World) onSpawn(t *simrt.Task) {
+	if w.ArmSeq == nil {
+		w.ArmSeq = map[*simrt.Task]uint64{}
+	}
+	w.ArmSeq[t] = w.Seq
+	if w.SpawnHook != nil {
+		w.SpawnHook(t)
+	}
+}
+
 // Go starts a harness task that belongs to the plan (the main phase lasts until all plan
 // tasks have finished).
 //
@@ -402,7 +417,8 @@ func (w *World) canAdvance() (time.Time, bool) {
 	if !ok {
 		return at, false
 	}
-	if lim, have := w.S.BusyTickLimit(); have && !at.Before(lim) {
+	// (the clock is moved to at+1ns, see Sched.AdvanceTo: that instant must still lie before the tick)
+	if lim, have := w.S.BusyTickLimit(); have && !at.Add(time.Nanosecond).Before(lim) {
 		return at, false
 	}
 	return at, true
